@@ -18,6 +18,9 @@ func corpusJSON() []*modSpec {
 		mk("json-gomacro-ignored-sibling", "package models\n\ntype Shape interface{ isShape() }\ntype Circle struct{ R int }\ntype Square struct{ S int }\n\nfunc (Circle) isShape() {}\nfunc (Square) isShape() {}\n\ntype Drawing struct {\n\tMain Shape\n\tTitle string `json:\"title\"`\n\tRevision int `gomacro:\"ignore\"`\n\tAuthor string `json:\"author\" gomacro:\"ignore\"`\n\tNotes []string `gomacro:\"ignore\" json:\"notes,omitempty\"`\n\tSecret string `json:\"-\"`\n}\n"),
 		mk("json-unions-sharing-their-first-letter", "package models\n\ntype Shape interface{ isShape() }\ntype Style interface{ isStyle() }\ntype Circle struct{ R int }\ntype Square struct{ S int }\ntype Bold struct{ W int }\n\nfunc (Circle) isShape() {}\nfunc (Square) isShape() {}\nfunc (Circle) isStyle() {}\nfunc (Bold) isStyle() {}\n\ntype Drawing struct {\n\tShape Shape\n\tStyle Style\n}\n"),
 		mk("json-embedded-with-option-only-tag", "package models\n\ntype Shape interface{ isShape() }\ntype Circle struct{ R int }\n\nfunc (Circle) isShape() {}\n\ntype Meta struct {\n\tAuthor string\n\tRev int `json:\"rev\"`\n}\n\ntype WithUnion struct {\n\tInner Shape\n\tNote string\n}\n\ntype Doc struct {\n\tMeta `json:\",omitempty\"`\n\tTitle string\n\tMain Shape\n}\n\ntype Wrapper struct {\n\tWithUnion `json:\",omitempty\"`\n\tTitle string\n}\n\ntype Plain struct {\n\tMeta\n\tMain Shape\n}\n"),
+		mk("json-named-containers-of-structs-holding-unions", "package models\n\ntype Registry map[string]Holder\n\ntype Holders []Holder\n\ntype Grid [2]Holder\n\ntype Top struct {\n\tItems Registry `json:\"items\"`\n\tList Holders\n\tG Grid\n\tName string\n}\n", modFile{"holder.go", "package models\n\ntype Shape interface{ isShape() }\ntype Circle struct{ R int }\ntype Square struct{ S int }\n\nfunc (Circle) isShape() {}\nfunc (Square) isShape() {}\n\ntype Holder struct {\n\tS Shape\n\tN int\n}\n"}),
+		mk("json-named-map-of-structs-holding-unions", "package models\n\ntype Registry map[string]Holder\n\ntype Top struct {\n\tItems Registry `json:\"items\"`\n\tName string\n}\n", modFile{"holder.go", "package models\n\ntype Shape interface{ isShape() }\ntype Circle struct{ R int }\ntype Square struct{ S int }\n\nfunc (Circle) isShape() {}\nfunc (Square) isShape() {}\n\ntype Holder struct {\n\tS Shape\n\tN int\n}\n"}),
+		mk("json-named-slice-of-structs-holding-unions", "package models\n\ntype Holders []Holder2\n\ntype Top2 struct {\n\tList Holders\n\tName string\n}\n", modFile{"holder.go", "package models\n\ntype Shape interface{ isShape() }\ntype Circle struct{ R int }\ntype Square struct{ S int }\n\nfunc (Circle) isShape() {}\nfunc (Square) isShape() {}\n\ntype Holder2 struct {\n\tS Shape\n\tN int\n}\n"}),
 		mk("json-shared-member", "package models\n\ntype U1 interface{ is1() }\ntype U2 interface{ is2() }\ntype A struct{ X int }\ntype B struct{ Y string }\n\nfunc (A) is1() {}\nfunc (A) is2() {}\nfunc (B) is2() {}\n\ntype S struct {\n\tV1 U1\n\tV2 U2\n\tL []int\n\tM map[string]A\n}\n"),
 		mk("json-fixed-array-of-unions", "package models\n\ntype U interface{ isU() }\ntype A struct{ X int }\nfunc (A) isU() {}\n\ntype Fixed [3]U\n\ntype S struct{ F Fixed }\n"),
 		mk("json-union-behind-pointer", "package models\n\ntype Drawing struct {\n\tName string\n\tTop *Layer\n\tAll []*Layer\n\tByName map[string]*Layer\n}\n",
